@@ -210,7 +210,7 @@ AqFails(s, e) ==
           /\ \E k \in DOMAIN s.done :
                 LET d == s.done[k]
                     row == d.rows[RowIdx(s, AqIa(s, i), AqIr(s, i), AqIo(s, i))] IN
-                /\ row # <<-1>>
+                /\ d.x # x /\ row # <<-1>>
                 /\ (d.x \in Ids(R(i, 2))) # (x \in Rng(row))})
 
 RqFails(s, e) ==
